@@ -14,13 +14,19 @@ CONSTANTS NReqs, NInv, EmptyAckDelay, MaxTime, MaxEnv,
 
 VARIABLES now,
           cq,      \* q -> [phase ("ack"|"resp"|"done"), other]
-          hs,      \* inv -> [st ("running"|"finished"|"cancelled"), due (-1: no empty-ACK timer armed)]
+          hs,      \* inv -> [st ("running"|"finished"|"cancelled"), due (-1: no empty-ACK timer armed),
+                   \*         other (a handler of the second context, which is not shut down)]
           shut,    \* "up" | "down"
           budget, emit, obs
 
 vars == <<now, cq, hs, shut, budget, emit, obs>>
 
-Ev(k, q, i, cls, x) == [k |-> k, t |-> now, q |-> q, inv |-> i, cls |-> cls, x |-> x, r |-> 1, ty |-> "", obs |-> -1]
+Ev(k, q, i, cls, x) == [k |-> k, t |-> now, q |-> q, inv |-> i, cls |-> cls, x |-> x, r |-> 1, ty |-> "", obs |-> -1,
+                        loc |-> "u", mid |-> 0, tok |-> ""]
+\* events of the second context's server role: request i has message ID 600 + i and token "o<i>"
+OTok(i) == IF i = 1 THEN "o1" ELSE IF i = 2 THEN "o2" ELSE "o3"
+OEv(k, i, cls, ty) == [Ev(k, 0, i, cls, IF k \in {"rx", "tx"} THEN "other" ELSE "") EXCEPT
+                         !.loc = "o", !.mid = 600 + i, !.tok = OTok(i), !.ty = ty, !.r = 2]
 Step(es) == /\ emit' = es /\ obs' = ObsFold(obs, es)
 
 RECURSIVE SetToSeq(_)
@@ -63,22 +69,38 @@ RxResp(q) ==
 RxReq(con) ==
   /\ shut = "up" /\ budget > 0 /\ Cardinality(DOMAIN hs) < NInv
   /\ LET i == Cardinality(DOMAIN hs) + 1
-     IN /\ hs' = Put(hs, i, [st |-> "running", due |-> IF con THEN now + EmptyAckDelay ELSE -1])
+     IN /\ hs' = Put(hs, i, [st |-> "running", due |-> IF con THEN now + EmptyAckDelay ELSE -1, other |-> FALSE])
         /\ Step(<<Ev("rx", 0, i, "req", ""), Ev("rxend", 0, 0, "", ""), Ev("call", 0, i, "", "")>>)
   /\ budget' = budget - 1
   /\ UNCHANGED <<now, cq, shut>>
 
+\* the second context reads a request of its own (whether or not the first one is still up)
+RxReqOther(con) ==
+  /\ budget > 0 /\ Cardinality(DOMAIN hs) < NInv
+  /\ LET i == Cardinality(DOMAIN hs) + 1
+     IN /\ hs' = Put(hs, i, [st |-> "running", due |-> IF con THEN now + EmptyAckDelay ELSE -1, other |-> TRUE])
+        /\ Step(<<OEv("rx", i, "req", IF con THEN "CON" ELSE "NON"), OEv("call", i, "", "")>>)
+  /\ budget' = budget - 1
+  /\ UNCHANGED <<now, cq, shut>>
+
 Release(i) ==
-  /\ shut = "up" /\ i \in DOMAIN hs /\ hs[i].st = "running"
-  /\ hs' = [hs EXCEPT ![i] = [st |-> "finished", due |-> -1]]
-  /\ Step(<<Ev("release", 0, i, "", ""), Ev("tx", 0, i, "resp", "")>>)
+  /\ i \in DOMAIN hs /\ hs[i].st = "running" /\ (shut = "up" \/ hs[i].other)
+  /\ hs' = [hs EXCEPT ![i] = [@ EXCEPT !.st = "finished", !.due = -1]]
+  /\ IF hs[i].other
+       THEN \* piggy-backed while the acknowledgement is pending, separate otherwise
+            Step(<<OEv("release", i, "", ""),
+                   [OEv("tx", i, "resp", IF hs[i].due >= 0 THEN "ACK" ELSE "NON") EXCEPT
+                      !.mid = IF hs[i].due >= 0 THEN 600 + i ELSE 0]>>)
+       ELSE Step(<<Ev("release", 0, i, "", ""), Ev("tx", 0, i, "resp", "")>>)
   /\ UNCHANGED <<now, cq, shut, budget>>
 
 (* the empty-ACK timer of handler i fires (on_timeout in _process_request)  *)
 TimerEad(i) ==
   /\ i \in DOMAIN hs /\ hs[i].due = now
   /\ hs' = [hs EXCEPT ![i].due = -1]
-  /\ IF shut = "up"
+  /\ IF hs[i].other
+       THEN Step(<<OEv("tx", i, "empty", "ACK")>>)
+     ELSE IF shut = "up"
        THEN Step(<<Ev("tx", 0, i, "empty", "")>>)
        ELSE \* the transport is closed: sendmsg on it raises inside the loop
             Step(<<Ev("loopexc", 0, i, "", "AttributeError")>>)
@@ -88,11 +110,12 @@ Shutdown ==
   /\ shut = "up"
   /\ shut' = "down"
   /\ LET pend == {q \in DOMAIN cq : ~cq[q].other /\ cq[q].phase # "done"}
-         run == {i \in DOMAIN hs : hs[i].st = "running"}
+         run == {i \in DOMAIN hs : hs[i].st = "running" /\ ~hs[i].other}
      IN /\ cq' = [q \in DOMAIN cq |-> IF q \in pend THEN [cq[q] EXCEPT !.phase = "done"] ELSE cq[q]]
         /\ hs' = [i \in DOMAIN hs |->
-                    [st |-> IF i \in run THEN "cancelled" ELSE hs[i].st,
-                     due |-> IF CancelPiggyOnShutdown THEN -1 ELSE hs[i].due]]
+                    IF hs[i].other THEN hs[i]
+                    ELSE [st |-> IF i \in run THEN "cancelled" ELSE hs[i].st,
+                          due |-> IF CancelPiggyOnShutdown THEN -1 ELSE hs[i].due, other |-> FALSE]]
         /\ Step(<<Ev("shutdown", 0, 0, "", "")>>
                 \o [k \in 1..Cardinality(run) |-> Ev("cancelled", 0, SetToSeq(run)[k], "", "")]
                 \o [k \in 1..Cardinality(pend) |-> Ev("done", SetToSeq(pend)[k], 0, "shutdown", "")]
@@ -106,6 +129,7 @@ Tick == /\ ~TimerDue /\ now < MaxTime
 End == /\ ~TimerDue /\ now = MaxTime
        /\ (IF emit = << >> THEN TRUE ELSE emit[Len(emit)].k # "end")
        /\ \A q \in DOMAIN cq : cq[q].other => cq[q].phase = "done"     \* the other context's peer always answers
+       /\ \A i \in DOMAIN hs : hs[i].other => hs[i].st = "finished"     \* ... and its handlers always finish
        /\ Step(<<Ev("end", 0, 0, "", "")>>)
        /\ UNCHANGED <<now, cq, hs, shut, budget>>
 
@@ -113,6 +137,7 @@ Next == \/ \E i \in DOMAIN hs : TimerEad(i)
         \/ (~TimerDue /\ \E con \in BOOLEAN, other \in BOOLEAN : Submit(con, other))
         \/ (~TimerDue /\ \E q \in DOMAIN cq : RxAck(q) \/ RxResp(q))
         \/ (~TimerDue /\ \E con \in BOOLEAN : RxReq(con))
+        \/ (~TimerDue /\ \E con \in BOOLEAN : RxReqOther(con))
         \/ (~TimerDue /\ \E i \in DOMAIN hs : Release(i))
         \/ (~TimerDue /\ Shutdown)
         \/ Tick
